@@ -16,7 +16,8 @@ through the real filter and compared - field by field - with what a small refere
 * Where    : environment kept iff N and the feature count are within bounds, interaction kept iff its action
              count is within bounds.
 * Cache, Chunk, Params, Identity, Batch->Unbatch, BatchSafe(F) over batched/unbatched input: identity resp. F.
-* the `Environments` shortcut methods build pipelines that read the same as the filter models (after Finalize).
+* the `Environments` shortcut methods over 1-3 different environments build pipelines in which every member reads the
+  same as the filter model of its own interactions (after Finalize), whatever the order of the reads.
 
 After every call the input interactions (and the caller's list) must be unchanged.
 """
@@ -135,7 +136,7 @@ def build(seq):
     kind = seq["kind"]
     for i, row in enumerate(seq["rows"]):
         ctx = make_context(seq, row["c"])
-        extra = {"tag": i} if seq["tag"] else {}
+        extra = {"tag": seq.get("tag0", 0) + i} if seq["tag"] else {}
         if kind == "sim":
             it = SimulatedInteraction(ctx, list(row["a"]), make_rewards(seq, row), **extra)
         elif kind == "gnd":
@@ -766,21 +767,58 @@ def identity_classes(case):
 
 # =============================================================================================== Environments shortcuts
 class ListEnvironment(Environment):
-    def __init__(self, seq): self._seq = seq
+    def __init__(self, seq, member=0): self._seq, self._member = seq, member
     @property
-    def params(self): return {"env": "list"}
+    def params(self): return {"env": "list", "member": self._member}
     def read(self): return build(self._seq)
 
 def finalized(interactions):
     return [fz_interaction(o) for o in F.Finalize().filter(interactions)]
 
+def member_seqs(case):
+    """the environments held by the Environments object: the generated sequence plus 0-2 further members of the same layout,
+    each a different window (start, length) of the generated rows with its own tag range"""
+    seq = dict(case["seq"], it=False)
+    out = [seq]
+    rows = seq["rows"]
+    for j, (start, length) in enumerate(case.get("members", []), 1):
+        mine = [rows[(start + i) % len(rows)] for i in range(length)] if rows else []
+        out.append(dict(seq, rows=mine, tag=True, tag0=100 * j))
+    if len(out) > 1: out[0] = dict(seq, tag=True)
+    return out
+
+def envs_model(seq, f, seed=None):
+    """finalized interactions the shortcut must yield for the environment `seq`"""
+    n, op = len(seq["rows"]), f["op"]
+    ins = build(seq)
+    if op == "shuffle": exp = ref_shuffle(n, seed * 3.21 if is_logged(seq) and n > 0 else seed)
+    elif op == "take":
+        exp = list(range(n))[:f["count"]]
+        if f["strict"] and n < f["count"]: exp = []
+    elif op == "slice": exp = list(range(n))[f["start"]:f["stop"]:f["step"]]
+    elif op == "riffle": exp = ref_riffle(n, f["spacing"], f["seed"])
+    elif op == "sort":
+        kv = sort_key_values(seq, list(f["keys"]))
+        exp = sorted(range(n), key=lambda i: kv[i])
+    elif op == "where": exp = list(range(n)) if in_bounds(n, f["n_interactions"]) else []
+    elif op == "reservoir":
+        direct = list(F.Reservoir(f["count"], strict=f["strict"], seed=seed).filter(ins))
+        want_len = 0 if (f["strict"] and n < f["count"]) else min(f["count"], n)
+        require(len(direct) == want_len, "Reservoir: wrong number of interactions", got=len(direct), want=want_len, N=n, count=f["count"], strict=f["strict"])
+        return finalized(direct)
+    elif op in ("cache", "chunk", "params", "batch_unbatch"): exp = list(range(n))
+    else: raise ValueError(op)
+    return finalized([ins[k] for k in exp])
+
 def run_envs(case):
     CobaContext.logger = NullLogger()
-    seq, f = case["seq"], case["f"]
-    seq = dict(seq, it=False)
-    n = len(seq["rows"])
-    base = Environments(ListEnvironment(seq))
+    f = case["f"]
+    members = member_seqs(case)
+    sources = [ListEnvironment(s, j) for j, s in enumerate(members)]
+    base = Environments(sources) if case.get("as_list", True) else Environments(*sources)
     op = f["op"]
+    seeds = [None]
+    seed_param = None
     if op == "shuffle":
         how, seeds = f["how"], list(f["seeds"])
         if how == "n": envs, seeds = base.shuffle(n=f["n"]), list(range(f["n"]))
@@ -789,77 +827,71 @@ def run_envs(case):
         elif how == "seeds": envs = base.shuffle(seeds)
         elif how == "seedskw": envs = base.shuffle(seeds=seeds)
         elif how == "default": envs, seeds = base.shuffle(), [1]
-        require(len(envs) == len(seeds), "Environments.shuffle must make one environment per seed", seeds=seeds, got=len(envs), how=how)
-        got_seeds = [e.params.get("shuffle_seed") for e in envs]
-        require(sorted(got_seeds) == sorted(seeds), "Environments.shuffle: seeds of the environments", want=seeds, got=got_seeds, how=how)
-        for e in envs:
-            s = e.params["shuffle_seed"]
-            exp = ref_shuffle(n, s * 3.21 if is_logged(seq) and n > 0 else s)
-            ins = build(seq)
-            require(finalized(e.read()) == finalized([ins[k] for k in exp]), "Environments.shuffle(...) read differs from the shuffle model", seed=s, how=how, N=n)
-        return
-    if op == "take":
-        env, = base.take(f["count"], f["strict"]) if f["strict"] else base.take(f["count"])
-        exp = list(range(n))[:f["count"]]
-        if f["strict"] and n < f["count"]: exp = []
-    elif op == "slice":
-        if f["stop"] is None and f["step"] == 1: env, = base.slice(f["start"])
-        elif f["step"] == 1: env, = base.slice(f["start"], f["stop"])
-        else: env, = base.slice(f["start"], f["stop"], f["step"])
-        exp = list(range(n))[f["start"]:f["stop"]:f["step"]]
-    elif op == "riffle":
-        env, = base.riffle(f["spacing"], f["seed"])
-        exp = ref_riffle(n, f["spacing"], f["seed"])
-    elif op == "sort":
-        env, = base.sort(*sort_args(list(f["keys"]), f["form"]))
-        kv = sort_key_values(seq, list(f["keys"]))
-        exp = sorted(range(n), key=lambda i: kv[i])
-    elif op == "where":
-        env, = base.where(n_interactions=bound_arg(f["n_interactions"], "tuple"))
-        exp = list(range(n)) if in_bounds(n, f["n_interactions"]) else []
+        else: raise ValueError(how)
+        seed_param = "shuffle_seed"
     elif op == "reservoir":
         seeds = list(f["seeds"])
         envs = base.reservoir(f["count"], seeds if f["as_list"] else seeds[0], strict=f["strict"]) if f["as_list"] or f["strict"] else base.reservoir(f["count"], seeds[0])
         if not f["as_list"]: seeds = seeds[:1]
-        require(len(envs) == len(seeds), "Environments.reservoir must make one environment per seed", seeds=seeds, got=len(envs))
-        for e, s in zip(envs, seeds):
-            require(e.params.get("reservoir_seed") == s and e.params.get("reservoir_count") == f["count"], "Environments.reservoir params", params=e.params, seed=s)
-            direct = finalized(F.Reservoir(f["count"], strict=f["strict"], seed=s).filter(build(seq)))
-            require(finalized(e.read()) == direct, "Environments.reservoir(...) read differs from Reservoir(count,strict,seed)", seed=s, count=f["count"], strict=f["strict"])
-            want_len = 0 if (f["strict"] and n < f["count"]) else min(f["count"], n)
-            require(len(direct) == want_len, "Environments.reservoir: wrong number of interactions", got=len(direct), want=want_len)
-        return
-    elif op in ("cache", "chunk", "params", "batch_unbatch"):
-        if op == "cache": env, = base.cache()
-        elif op == "chunk": env, = base.chunk(f["cache"])
-        elif op == "params": env, = base.params({"k": 1})
-        else: env, = base.batch(f["size"]).unbatch()
-        exp = list(range(n))
-        ins = build(seq)
-        want = finalized([ins[k] for k in exp])
-        require(finalized(env.read()) == want, f"Environments.{op}() is not an identity on the interactions", N=n)
-        require(finalized(env.read()) == want, f"Environments.{op}() second read is not an identity on the interactions", N=n)
-        if op == "params": require(env.params.get("k") == 1, "Environments.params must add the params", params=env.params)
-        return
-    else:
-        raise ValueError(op)
-    ins = build(seq)
-    got = finalized(env.read())
-    want = finalized([ins[k] for k in exp])
-    require(got == want, f"Environments.{op}(...) read differs from the model", f=f, N=n, got_len=len(got), want_len=len(want))
+        seed_param = "reservoir_seed"
+    elif op == "take": envs = base.take(f["count"], f["strict"]) if f["strict"] else base.take(f["count"])
+    elif op == "slice":
+        if f["stop"] is None and f["step"] == 1: envs = base.slice(f["start"])
+        elif f["step"] == 1: envs = base.slice(f["start"], f["stop"])
+        else: envs = base.slice(f["start"], f["stop"], f["step"])
+    elif op == "riffle": envs = base.riffle(f["spacing"], f["seed"])
+    elif op == "sort": envs = base.sort(*sort_args(list(f["keys"]), f["form"]))
+    elif op == "where": envs = base.where(n_interactions=bound_arg(f["n_interactions"], "tuple"))
+    elif op == "cache": envs = base.cache()
+    elif op == "chunk": envs = base.chunk(f["cache"])
+    elif op == "params": envs = base.params({"k": 1})
+    elif op == "batch_unbatch": envs = base.batch(f["size"]).unbatch()
+    else: raise ValueError(op)
+
+    made = list(envs)
+    ident = [(e.params.get("member"), e.params.get(seed_param) if seed_param else None) for e in made]
+    want_ident = [(j, s) for j in range(len(members)) for s in seeds]
+    require(sorted(ident, key=repr) == sorted(want_ident, key=repr),
+            f"Environments.{op}(...) must make one environment per member (and seed)", want=want_ident, got=ident, f=f)
+    if op == "reservoir":
+        require(all(e.params.get("reservoir_count") == f["count"] for e in made), "Environments.reservoir params", params=[e.params for e in made])
+    if op == "params":
+        require(all(e.params.get("k") == 1 for e in made), "Environments.params must add the params", params=[e.params for e in made])
+
+    # read the environments in the generated order (some more than once), then every one not read yet
+    order = [r % len(made) for r in case.get("reads", [])]
+    order += [k for k in range(len(made)) if k not in order]
+    if "reads" not in case: order = order + order       # single-environment cases of earlier versions: two reads
+    seen = set()
+    for k in order:
+        j, s = ident[k]
+        got = finalized(made[k].read())
+        want = envs_model(members[j], f, s)
+        if got != want:
+            own = {tuple(envs_model(m, f, s)): i for i, m in enumerate(members)}
+            other = own.get(tuple(got))
+            raise Violation(f"Environments.{op}(...): read {'again ' if k in seen else ''}of member {j} differs from the model for its own interactions"
+                            + (f" (it equals the model output of member {other})" if other is not None and other != j else "")
+                            + f" | f={f!r} seed={s!r} N={len(members[j]['rows'])} got_len={len(got)} want_len={len(want)} read_order={order} "
+                            + f"got={[show(g) for g in got][:8]} want={[show(w) for w in want][:8]}")
+        seen.add(k)
 
 @st.composite
 def envs_cases(draw, tier):
-    op = draw(st.sampled_from(["shuffle", "shuffle", "take", "slice", "riffle", "sort", "where", "reservoir", "cache", "chunk", "params", "batch_unbatch"]))
+    op = draw(st.sampled_from(["cache", "shuffle", "shuffle", "cache", "take", "slice", "riffle", "sort", "where", "reservoir", "chunk", "params", "batch_unbatch"]))
     if op == "sort":
         seq = draw(seqs(tier, ctx_kinds=("list", "tuple", "sparse")))
         if seq["ctx"] == "sparse": keys = draw(st.lists(st.sampled_from(seq["keys"]), min_size=1, max_size=2, unique=True))
         elif not seq["cols"]: keys = []
         else: keys = draw(st.lists(st.integers(0, len(seq["cols"]) - 1), min_size=0, max_size=2, unique=True))
-        return {"seq": seq, "f": {"op": op, "keys": keys, "form": draw(st.sampled_from(["args", "list", "mixed"])) if keys else "args"}}
-    seq = draw(seqs(tier, ctx_kinds=("none", "num", "list", "tuple", "sparse")))
+        f = {"op": op, "keys": keys, "form": draw(st.sampled_from(["args", "list", "mixed"])) if keys else "args"}
+    else:
+        seq = draw(seqs(tier, ctx_kinds=("none", "num", "list", "tuple", "sparse")))
+        f = {"op": op}
     n = len(seq["rows"])
-    f = {"op": op}
+    top = 12 if tier == "quick" else 40
+    k = [1, 2, 1, 0][draw(st.integers(0, 3))]      # number of further members: mostly 1 or 2
+    members = [[draw(st.integers(0, max(0, n - 1))), draw(st.one_of(around(n), st.integers(0, top)))] for _ in range(k)]
     if op == "shuffle":
         f["how"] = ["seeds", "seed", "seedkw", "n", "seedskw", "default", "default"][draw(st.integers(0, 6))]
         f["seeds"] = draw(st.lists(st.integers(0, 12), min_size=1, max_size=3, unique=True))
@@ -867,18 +899,26 @@ def envs_cases(draw, tier):
     elif op == "take": f.update(count=draw(around(n)), strict=draw(st.booleans()))
     elif op == "slice": f.update(start=draw(st.one_of(st.none(), st.integers(0, 3))), stop=draw(st.one_of(st.none(), around(n))), step=draw(st.sampled_from([1, 1, 2, 3])))
     elif op == "riffle": f.update(spacing=draw(st.integers(1, 4)), seed=draw(st.integers(0, 30)))
-    elif op == "where": f.update(n_interactions=draw(bounds([n])))
+    elif op == "where": f.update(n_interactions=draw(bounds([n] + [m[1] for m in members])))
     elif op == "reservoir": f.update(count=draw(around(n)), strict=draw(st.booleans()), seeds=draw(st.lists(st.integers(0, 12), min_size=1, max_size=3, unique=True)), as_list=draw(st.booleans()))
-    elif op == "chunk": f.update(cache=draw(st.booleans()))
+    elif op == "chunk": f.update(cache=draw(st.integers(0, 3)) > 0)
     elif op == "batch_unbatch": f.update(size=draw(st.one_of(st.sampled_from([1, 2, 3]), around(n, lo=1))))
-    return {"seq": seq, "f": f}
+    reads = draw(st.lists(st.integers(0, 8), min_size=2, max_size=5))
+    return {"seq": seq, "members": members, "reads": reads, "as_list": draw(st.booleans()), "f": f}
 
 def envs_nontrivial(case):
-    return len(case["seq"]["rows"]) >= 2 and case["f"]["op"] not in ("params", "chunk")
+    ms = member_seqs(case)
+    sizes = [len(m["rows"]) for m in ms]
+    return len(ms) >= 2 and max(sizes) >= 2 and sum(1 for x in sizes if x) >= 2
 
 def envs_classes(case):
     f = case["f"]
+    ms = member_seqs(case)
     out = [f"op={f['op']}"] + seq_classes(case["seq"])[:3]
+    out.append(f"members={len(ms)}")
+    out.append("member-lengths=" + ("n/a" if len(ms) < 2 else "equal" if len({len(m["rows"]) for m in ms}) == 1 else "different"))
+    reads = case.get("reads", [])
+    out.append("read-order=" + ("default" if not reads else "generated-with-repeats" if len(set(reads)) < len(reads) else "generated"))
     if f["op"] == "shuffle": out.append("shuffle-how=" + f["how"])
     return out
 
@@ -1004,8 +1044,10 @@ SUBCHECKS = [
              "non-trivial = N>=2 and a Cache, a real batch size or a batched BatchSafe"),
     Sub(name="envs", run=run_envs, strategy=envs_cases, nontrivial=envs_nontrivial, classes=envs_classes, sample_view=sample_view,
         quick=1200, thorough=48000, quick_shards=1,
-        what="Environments.shuffle/take/slice/riffle/sort/where/reservoir/cache/chunk/params/batch().unbatch(): one environment per seed, params, "
-             "and the read (through Finalize) equals Finalize of the model output"),
+        what="Environments over 1-3 DIFFERENT generated environments (same layout, different lengths and tag ranges) .shuffle/take/slice/riffle/sort/"
+             "where/reservoir/cache/chunk/params/batch().unbatch(): one environment per member and seed, params, and every member - read in a "
+             "generated order, some more than once - equals (through Finalize) the model output for ITS OWN interactions (catches one stateful "
+             "filter object shared by all members); non-trivial = at least 2 non-empty members, one with N>=2"),
     Sub(name="pipes", run=run_pipes, strategy=pipes_cases, nontrivial=pipes_nontrivial, classes=pipes_classes,
         quick=1500, thorough=64000, quick_shards=1,
         what="coba.pipes.Shuffle/Take/Slice/Reservoir/Cache/Identity on plain item lists and iterators vs the same models; the caller's list is left alone; "
